@@ -231,4 +231,44 @@ def Acc.batchMutateLeafAndUpdateMps (a : Acc D) (paths : List (List D)) (leaf_in
   let (ps, ms) ← batchReplaceLoop m false paths leaf_indices 0
   pure ({ a with peaks := peaks }, ps, ms)
 
+/-! ### histories (used by the history theorem of C05 and by the bounded model check of the driver)
+
+Every leaf is tracked: the state is the accumulator and, for every leaf index in order, its membership proof. -/
+
+/-- operations of a history -/
+inductive HOp (D : Type) where
+  | append (d : D)
+  | mutate (i : Nat) (d : D)
+  | batch (ms : List (Nat × D))
+
+structure HState (D : Type) where
+  acc : Acc D
+  proofs : List (List D)            -- `proofs[i]` = membership proof of leaf `i`
+
+/-- `mapM` over the tracked proofs with their leaf indices -/
+def mapIdxM (f : Nat → List D → Option (List D)) : List (List D) → Nat → Option (List (List D))
+  | [], _ => some []
+  | p :: ps, i => (f i p).bind (fun p' => (mapIdxM f ps (i + 1)).bind (fun r => some (p' :: r)))
+
+/-- one operation: every tracked proof goes through the matching update routine
+    (`update_from_append` / `update_from_leaf_mutation` one by one; `batch_mutate_leaf_and_update_mps` for a batch) -/
+def HState.step (st : HState D) : HOp D → Option (HState D)
+  | .append d =>
+    (mapIdxM (fun i p => (updateFromAppend H p i st.acc.count d st.acc.peaks).map (·.1)) st.proofs 0).bind fun ps =>
+    (st.acc.append H d).bind fun r => some { acc := r.1, proofs := ps ++ [r.2] }
+  | .mutate i d =>
+    (st.proofs[i]?).bind fun pi =>
+    (mapIdxM (fun k p => (updateFromLeafMutation H p k { leaf_index := i, new_leaf := d, path := pi }).map (·.1))
+      st.proofs 0).bind fun ps =>
+    (st.acc.mutateLeaf H i d pi).bind fun a => some { acc := a, proofs := ps }
+  | .batch ms =>
+    (ms.mapM (fun m => (st.proofs[m.1]?).map (fun pi => ({ leaf_index := m.1, new_leaf := m.2, path := pi } : LeafMutation D)))).bind
+      fun lms =>
+    (st.acc.batchMutateLeafAndUpdateMps H st.proofs (List.range st.proofs.length) lms).bind fun r =>
+      some { acc := r.1, proofs := r.2.1 }
+
+def HState.run (st : HState D) : List (HOp D) → Option (HState D)
+  | [] => some st
+  | op :: ops => (st.step H op).bind (fun st' => HState.run st' ops)
+
 end TF.Model.MmrE
